@@ -7,13 +7,18 @@ Configuration lattice with EDGE invariants, executed on the real models:
      gradient w.r.t. mask parameters finite, none / zero w.r.t. network weights, unchanged after re-drawing all weights and a
      forward on other data.  Per EDGE (one element raised by one grid step): no built-in cost decreases, and when it increases the
      gradient component of that element is non-zero.  Top element (all 1.0): continuous == discrete == cost of the original model.
+     Protocol 'deepcopy' (every third program quick / all thorough): the same lattice with all of these oracles is explored on a
+     copy.deepcopy of the converted model while the converted model itself stays alive with OTHER masks (every element at the lowest
+     grid value); in addition no parameter of that other object may receive a gradient from the copy's cost and its own cost stays put.
  (S) SuperNet, (M) MPS per-layer / per-channel: coefficient grids in soft mode at T in {1, 20}: finite, >= 0, weight/data independent,
      finite gradients, non-zero for coefficients whose increase (finite difference) raises the metric, none to network weights;
-     hard / T = 0.05: finiteness only.
+     hard / T = 0.05: finiteness only.  (M, O) in every 6th (state, mode) visit quick / every visit thorough: cost read, nas.export(),
+     cost read again (no forward, no mode change, no parameter change in between): identical values.
  (O) ODiMO_MPS with its default DIANA latency and parallel-accelerator reduction, weights in {2, 8} and 8-bit activations (the
      configuration the property names): the complete soft-mode oracle of (M), single and dictionary specification; and with the
      constructor's own default qinfo: the cost can be evaluated at all.
 """
+import copy
 import itertools
 
 import torch
@@ -31,14 +36,23 @@ RULE = ('(P) PIT programs (single / stacked Conv1d with k in {2,3,4,5}, residual
         '^n (complete for n <= 5 quick / 7 thorough, one-element deviations from uniform beyond) x specs {params, params_no_bias, ops, ops_no_bias, gap8 (2D)} x '
         '{continuous, discrete}; every +1-step edge of the lattice is checked for monotonicity and gradient; (S) SuperNets x coefficient grid x T; (M) MPS per-layer / '
         'per-channel x coefficient grid x T x {params_bit, ops_bit, mpic_latency, ne16_latency (8-bit activations)}; (O) ODiMO_MPS (default cost + reduction, w in {2,8}, a = 8) x coefficient grid x T, + the all-default constructor; '
-        'non-trivial = a state with at least one mask value below 1.0 / a non-uniform coefficient vector')
+        'non-trivial = a state with at least one mask value below 1.0 / a non-uniform coefficient vector; '
+        'protocol P-deepcopy (programs with index % 3 == 1 quick, all thorough): the lattice is explored on copy.deepcopy(converted model) while the '
+        'converted model stays alive with every mask element at ' + str(GRID[0]) + ' (all per-state / per-edge / top oracles on the copy + no gradient '
+        'into, and no cost change of, the other object); protocol export-between-reads (M, O; every 6th (state, mode) visit quick, every visit '
+        'thorough): get_cost, export(), get_cost again must agree')
 ASSUMPTIONS = ['mask values are positive grid values off the abs() kink and off the binarisation threshold',
                '"raises the metric" is decided by a finite difference: one grid step (PIT), delta = 0.05 (MPS / SuperNet soft mode)',
-               'in hard / arg-max mode and at T = 0.05 the softmax Jacobian legitimately underflows: only finiteness is asserted there']
+               'in hard / arg-max mode and at T = 0.05 the softmax Jacobian legitimately underflows: only finiteness is asserted there',
+               '"of the architecture only" is read per OBJECT: a deep copy is an independent model whose cost follows its own masks and whose '
+               'gradient reaches its own parameters only',
+               '"of the architecture only" excludes the history of observer calls: export() between two cost reads (same mode, no forward) '
+               'changes nothing; an export() that raises in a state is recorded as an outcome, not as a violation of this property']
 
 
 def bounds(tier):
-    return {'quick': {'complete_upto_elements': 5}, 'thorough': {'complete_upto_elements': 7}}[tier]
+    return {'quick': {'complete_upto_elements': 5, 'deepcopy_protocol_programs': 'index % 3 == 1, fold_bn False', 'export_between_reads_every': 6},
+            'thorough': {'complete_upto_elements': 7, 'deepcopy_protocol_programs': 'all', 'export_between_reads_every': 1}}[tier]
 
 
 PIT_PROGS = [
@@ -89,6 +103,13 @@ def cases(tier, seed):
         for fold in ((False, True) if GP.has_bn(p) else (False,)):
             for shard in range(len(GRID)):     # the lattice is sharded by the value of its first element (pool parallelism only)
                 out.append({'fam': 'P', 'prog': p, 'fold_bn': fold, 'tier': tier, 'shard': shard})
+    # protocol 'deepcopy': the lattice explored on a deep copy while the converted model stays alive with other masks
+    for i, p in enumerate(PIT_PROGS):
+        if tier != 'thorough' and i % 3 != 1:
+            continue
+        for fold in ((False, True) if GP.has_bn(p) and tier == 'thorough' else (False,)):
+            for shard in range(len(GRID)):
+                out.append({'fam': 'P', 'prog': p, 'fold_bn': fold, 'tier': tier, 'shard': shard, 'proto': 'deepcopy'})
     for p in SN_PROGS:
         out.append({'fam': 'S', 'prog': p, 'tier': tier})
     for p in MPS_PROGS:
@@ -146,6 +167,26 @@ def _run_P(case, seed, res, add, cur):
         add('conversion-raises', 'conversion-raises/pit', f'{type(ctx["error"]).__name__}: {ctx["error"]}')
         return
     nas, x, model = ctx['pit'], ctx['x'], ctx['model']
+    proto = case.get('proto')
+    other = None
+    if proto == 'deepcopy':
+        # the lattice is explored on a deep copy; the converted model itself stays alive and holds DIFFERENT, fixed masks
+        other = nas
+        nas = copy.deepcopy(other)
+        with torch.no_grad():
+            for (p, i, _) in _mask_elements(other):
+                p[i] = GRID[0]
+        other.train()
+        other_named = [(nm, p) for nm, p in other.named_parameters() if p.requires_grad]
+        with torch.no_grad():
+            other_cost0 = {}
+            for d in (False, True):
+                other.discrete_cost = d
+                other_cost0[d] = {k: float(other.get_cost(k)) for k in specs}
+        add0 = add
+
+        def add(kind, sig, msg):
+            add0(kind, sig + '/on-deepcopy', f'[explored on copy.deepcopy(converted model); the converted model is alive with every mask at {GRID[0]}] ' + msg)
     nas.train()
     els = _mask_elements(nas)
     n = len(els)
@@ -168,6 +209,8 @@ def _run_P(case, seed, res, add, cur):
         complete = False
     stset = set(states)
     only = case.get('only')
+    if only is not None and only.get('final'):
+        only = None         # the end-of-exploration oracle of the deep-copy protocol replays the whole shard
 
     def setstate(st):
         with torch.no_grad():
@@ -217,7 +260,14 @@ def _run_P(case, seed, res, add, cur):
                     continue
                 named = [(nm, p) for nm, p in nas.named_parameters() if p.requires_grad]
                 plist = [p for _, p in named]
-                g = torch.autograd.grad(c, plist, allow_unused=True, retain_graph=False)
+                g = torch.autograd.grad(c, plist + ([p for _, p in other_named] if other is not None else []), allow_unused=True, retain_graph=False)
+                if other is not None:
+                    g, g_other = g[:len(plist)], g[len(plist):]
+                    leak = [nm for (nm, p), gg in zip(other_named, g_other) if gg is not None and float(gg.abs().sum()) != 0.0]
+                    res['evals'] += 1
+                    if leak:
+                        add('gradient-to-another-model', f'gradient-to-another-model/pit/{k}',
+                            f'masks {desc}: the gradient of get_cost({k}) discrete={d} of the copy reaches parameters of the model it was copied from: {leak[:3]}')
                 bad_net = [nm for (nm, p), gg in zip(named, g) if id(p) not in nas_ids and gg is not None and float(gg.abs().sum()) != 0.0]
                 if bad_net:
                     add('gradient-to-network-weights', f'gradient-to-network-weights/pit/{k}', f'masks {desc}: d get_cost({k})/d {bad_net[:3]} != 0')
@@ -298,7 +348,7 @@ def _run_P(case, seed, res, add, cur):
                                 f'raising {nm} from {GRID[st[i]]} to {GRID[up[i]]} raises get_cost({k}) discrete={d} from {a} to {b} but its gradient component is '
                                 f'{None if gg is None else float(gg[idx])} (masks {desc})')
         if any(v < G - 1 for v in st):
-            res['nontrivial'].append(f'P/{_psig(prog)}/{fold}/{st}')
+            res['nontrivial'].append(f'P{"-" + proto if proto else ""}/{_psig(prog)}/{fold}/{st}')
     # top element == original model
     top = tuple([G - 1] * n)
     if (only is None or only.get('state') == list(top)) and shard in (None, G - 1):
@@ -312,7 +362,21 @@ def _run_P(case, seed, res, add, cur):
                     if abs(vals[d][k] - ref[k]) > 1e-3 + 1e-5 * abs(ref[k]):
                         add('open-masks-cost-differs-from-original', f'open-masks-cost-differs-from-original/pit/{k}',
                             f'all masks open: get_cost({k}) discrete={d} = {vals[d][k]} but the original model costs {ref[k]}')
+    if other is not None and only is None:
+        # the other object was never touched: its cost is what it was before the copy was explored
+        cur[0] = {'final': True}
+        with torch.no_grad():
+            for d in (False, True):
+                other.discrete_cost = d
+                for k in specs:
+                    res['evals'] += 1
+                    o = float(other.get_cost(k))
+                    if abs(o - other_cost0[d][k]) > 1e-4 * max(1.0, abs(other_cost0[d][k])):
+                        add('cost-of-another-model-changed', f'cost-of-another-model-changed/pit/{k}',
+                            f'get_cost({k}) discrete={d} of the converted model (masks never touched) went from {other_cost0[d][k]} to {o} while its deep copy was explored')
     res['sample'] = {'fam': 'P', 'prog': prog, 'mask_elements': [nm for _, _, nm in els], 'states': len(states), 'complete_lattice': complete}
+    if proto:
+        res['sample']['proto'] = proto
 
 
 # ----------------------------------------------------------------------------------------------
@@ -334,12 +398,13 @@ def _coef_states(shapes, tier):
     return out
 
 
-def _run_soft(case, seed, res, add, cur, nas, x, coef_params, specs, fam, temps_modes, set_opts, twin=None):
+def _run_soft(case, seed, res, add, cur, nas, x, coef_params, specs, fam, temps_modes, set_opts, twin=None, export_probe=False):
     nas_ids = {id(p) for p in nas.nas_parameters()}
     states = _coef_states([tuple(p.shape) for p in coef_params], case.get('tier', 'quick'))
     only = case.get('only')
+    every = bounds(case.get('tier', 'quick'))['export_between_reads_every']
     for si, st in enumerate(states):
-        for (T, hard) in temps_modes:
+        for mi, (T, hard) in enumerate(temps_modes):
             label = {'state': si, 'T': T, 'hard': hard}
             if only is not None and only != label:
                 continue
@@ -373,6 +438,31 @@ def _run_soft(case, seed, res, add, cur, nas, x, coef_params, specs, fam, temps_
                     if gm.get(id(p)) is not None and not torch.isfinite(gm[id(p)]).all():
                         add('gradient-not-finite', f'gradient-not-finite/{fam}/{k}', f'{label}: non-finite gradient of get_cost({k}) w.r.t. a coefficient tensor')
                 grads[k] = gm
+            # a function of the architecture ONLY, not of the history of observer calls: cost read, export(), cost read again - same
+            # mode, no forward, no parameter change in between - must give the same values
+            if export_probe and (si + mi) % every == (2 % every):
+                with torch.no_grad():
+                    first = {k: float(nas.get_cost(k)) for k in specs}
+                was_training = nas.training
+                try:
+                    nas.export()
+                    exported = True
+                except Exception:
+                    exported = False
+                    res['outcomes'].add('export-raises-in-this-state')
+                if exported:
+                    with torch.no_grad():
+                        second = {k: float(nas.get_cost(k)) for k in specs}
+                    for k in specs:
+                        res['evals'] += 1
+                        if abs(second[k] - first[k]) > 1e-4 * max(1.0, abs(first[k])) or abs(first[k] - vals[k]) > 1e-4 * max(1.0, abs(vals[k])):
+                            add('cost-depends-on-query-history', f'cost-depends-on-query-history/{fam}/{k}/export-between-reads',
+                                f'{label}: get_cost({k}) = {vals[k]}, read again {first[k]}, and {second[k]} after nas.export() (training={was_training} '
+                                f'before, {nas.training} after; no forward and no change of any parameter in between)')
+                # whatever export() left behind, the remaining oracles of this state start from a fresh training-mode forward
+                nas.train()
+                torch.manual_seed(5)
+                nas(x)
             # a function of the architecture ONLY: a freshly built twin with the same coefficients and options, queried in the
             # REVERSE metric order, must report the same values (no dependence on the history of cost queries)
             if twin is not None and si % 4 == 1:
@@ -483,7 +573,7 @@ def _run_M(case, seed, res, add, cur):
         return n2, [m.alpha for _, m in GM.selectors(n2)], \
             lambda T, hard: n2.update_softmax_options(temperature=T, hard=hard, gumbel=False, disable_sampling=False)
     _run_soft(case, seed, res, add, cur, nas, x, [m.alpha for _, m in sels], specs, 'mps-' + mode,
-              [(1.0, False), (20.0, False), (0.05, False), (1.0, True)], set_opts, twin)
+              [(1.0, False), (20.0, False), (0.05, False), (1.0, True)], set_opts, twin, export_probe=True)
     res['sample'] = {'fam': 'M', 'prog': prog, 'mode': mode, 'selectors': [n for n, _ in sels], 'metrics': sorted(specs)}
 
 
@@ -554,7 +644,7 @@ def _run_O(case, seed, res, add, cur):
             lambda T, hard: n2.update_softmax_options(temperature=T, hard=False, gumbel=False, disable_sampling=False)
     # ODiMO does not support hard sampling (its constructor says so): soft modes only
     _run_soft(case, seed, res, add, cur, nas, x, [m.alpha for _, m in sels], specs, 'odimo',
-              [(1.0, False), (20.0, False), (0.05, False)], set_opts, twin)
+              [(1.0, False), (20.0, False), (0.05, False)], set_opts, twin, export_probe=True)
     res['sample'] = {'fam': 'O', 'mode': mode, 'prog': prog, 'selectors': [n for n, _ in sels]}
 
 
